@@ -22,7 +22,7 @@
  *   X <id>                   call the code buffer as a function, print rax in hex (oracle runs only)
  *   R <id> <path> <content>  asm_assemble_file (the model reads <content>: hex, "-" empty, "missing")
  *   U <id> <c> <path> <content> <d>   asm_assemble_file_counting_chunks
- *   W <id> <path> <ok|bad>   asm_create_bin_file -> "<rc> <hex of the file | nofile>" (the file is removed)
+ *   W <id> <path> <ok|bad|stale>   asm_create_bin_file ("stale": the path already holds a longer file) -> "<rc> <hex of the file | nofile>" (the file is removed)
  *   F <id>                   asm_destroy_instance
  * Text is hex-encoded ("-" = empty) so that any byte except NUL can be sent.
  */
@@ -217,6 +217,11 @@ int main(void) {
     }
     case 'W': { /* W <id> <path> <ok|bad>: asm_create_bin_file, then the file's contents */
       char *path = strtok_r(NULL, " ", &save);
+      char *flag = strtok_r(NULL, " ", &save);
+      if (flag && !strcmp(flag, "stale")) {   /* the path already names a longer file */
+        FILE *pre = fopen(path, "wb");
+        if (pre) { for (int k = 0; k < 4096; k++) fputc(0xEE, pre); fclose(pre); }
+      }
       int rc = asm_create_bin_file(inst[id], path);
       printf("%d ", rc);
       FILE *f = fopen(path, "rb");
